@@ -125,6 +125,7 @@ type HookSpec struct {
 	Weight    *int     `json:"weight,omitempty"`
 	Policies  []string `json:"policies,omitempty"` // nil = annotation absent
 	RawEvents string   `json:"rawEvents,omitempty"`
+	PolicySep string   `json:"policySep,omitempty"` // separator between delete policies in the annotation ("" = ",")
 }
 
 // ResSlot describes one YAML document emitted by a template.
@@ -144,6 +145,7 @@ type ResSlot struct {
 	Cond    string            `json:"cond,omitempty"`   // wrap in {{ if .Values.<cond> }}
 	Style   string            `json:"style,omitempty"`  // document decoration: "", "crlf", "comment", "blanklead"
 	Labels  map[string]string `json:"labels,omitempty"` // extra labels
+	Annots  map[string]string `json:"annots,omitempty"` // extra annotations
 	Unknown bool              `json:"unknown,omitempty"`
 }
 
@@ -193,6 +195,7 @@ type OpSpec struct {
 	SkipCRDs        bool              `json:"skipCRDs,omitempty"`
 	IncludeCRDs     bool              `json:"includeCRDs,omitempty"`
 	SkipSchema      bool              `json:"skipSchema,omitempty"`
+	NoOpenAPI       bool              `json:"noOpenAPI,omitempty"` // --disable-openapi-validation
 	Labels          map[string]string `json:"labels,omitempty"`
 	CleanupOnFail   bool              `json:"cleanupOnFail,omitempty"`
 	MaxHistory      int               `json:"maxHistory,omitempty"`
